@@ -90,6 +90,8 @@ def conformance(cls, tier, seed=0):
            'sample': {'program': reps[0].prog, 'schedule': reps[0].sched,
                       'stream_head': [{k: v for k, v in e.items() if v not in (-1, '-')} for e in hists[0][:12]]} if hists else None}
     json.dump(res, open(cp, 'w'))
+    import shutil
+    shutil.rmtree(workdir, ignore_errors=True)
     return res
 
 
@@ -387,6 +389,8 @@ def id_conformance(n, tier, seed=0):
                    rejected=[{'program': reps[r['hist']].prog, 'schedule': reps[r['hist']].sched, 'line': r['line'],
                               'event': hists[r['hist']][r['line']] if r['line'] < len(hists[r['hist']]) else None} for r in rej[:5]])
     json.dump(res, open(cp, 'w'))
+    import shutil
+    shutil.rmtree(workdir, ignore_errors=True)
     return res
 
 
